@@ -11,6 +11,8 @@ Init == \E en \in Engines : \E pr \in Profiles : \E ct \in CTs : \E k \in Kinds 
                  scn = [kind |-> k, engine |-> en, profile |-> pr, ct |-> ct, shape |-> sh, route |-> "anthropic"]
           \* a stall is "mid-response": after the headers; before them the response timeout governs, not the read timeout
           \/ k = "stall" /\ \E sp \in StallPoints \ {"prehdr"} : scn = [kind |-> k, engine |-> en, profile |-> pr, ct |-> ct, at |-> sp]
+          \* ... and a backend that accepts the request and never sends a response head is cut off by the response timeout
+          \/ k = "stall" /\ scn = [kind |-> k, engine |-> en, profile |-> pr, ct |-> ct, at |-> "prehdr", rsp |-> 1000]
           \/ k = "pause" /\ scn = [kind |-> k, engine |-> en, profile |-> pr, ct |-> ct, gap |-> 300]
           \* a longer timeout (2 s), a chunk 400 ms after the first, then one pause of 1.7 s: below the timeout, but
           \* longer than what is left of a clock started at the FIRST chunk
